@@ -28,8 +28,10 @@ as found (`repaired := false`).  For the code as found the property is false und
 A `Schedule` (C19) says which worker runs which batch and in which order the batches complete;
 `Valid` = every batch runs exactly once on one of the pool's workers — the trusted behaviour of
 `multiprocessing.Pool.imap_unordered`.  The theorems hold for every valid schedule, every number of
-shots `S`, every pool size `n ≥ 1` (the code uses `n = max(int(0.8·cpu), 2)`, `parRun`), every
-per-shot draw count `len`, every parent position `p0`, and both start methods.
+shots `S`, every pool size `n`, every chunk size `cs ≥ 1` (`parRunWith`; the code uses
+`n = max(int(0.8·cpu), 2)` and `cs = chunksize S n`: `parRunN`, `parRun`, for which `1 ≤ cs` is
+`chunks_partition`), every per-shot draw count `len`, every parent position `p0`, and both start
+methods.  Valid schedules exist for all these parameters (`schedules_exist`).
 
 Numbers are exact (any field); that floating-point addition is not associative, so that the
 accumulated sum may differ in the last bits between completion orders, is outside the theorems.
@@ -60,43 +62,49 @@ theorem chunks_partition (repaired : Bool) (g : Gen) (cpu S : Nat) :
 
 /-- the same for an arbitrary pool size `n ≥ 1` -/
 theorem chunks_partition_of_workers (repaired : Bool) (g : Gen) (n S : Nat) (hn : 1 ≤ n) :
-    1 ≤ chunksize S n ∧ nBatches S n ≤ n ∧
-      (chunks (chunksize S n) (mkArgs repaired true g S).1).length = nBatches S n ∧
+    1 ≤ chunksize S n ∧ nBatches (chunksize S n) S ≤ n ∧
+      (chunks (chunksize S n) (mkArgs repaired true g S).1).length = nBatches (chunksize S n) S ∧
       (∀ c ∈ chunks (chunksize S n) (mkArgs repaired true g S).1, c ≠ [] ∧ c.length ≤ chunksize S n) ∧
       (chunks (chunksize S n) (mkArgs repaired true g S).1).flatten = (mkArgs repaired true g S).1 := by
   have hcs := chunksize_pos S n
-  refine ⟨hcs, ?_, nBatches_eq _ _ _ _ _, mem_chunks hcs _, chunks_flatten hcs _⟩
+  refine ⟨hcs, ?_, nBatches_eq _ _ _ _ hcs, mem_chunks hcs _, chunks_flatten hcs _⟩
   apply chunks_length_le hcs
   rw [List.length_range]
   exact le_chunksize_mul _ _ hn
 
-private theorem valid_indices (cfg : Config) (n S : Nat) (s : Schedule) (hs : s.Valid (nBatches S n) n) :
+/-- non-vacuity of "every valid schedule": for every chunk size, number of shots and pool size
+`n ≥ 1` there is one (all batches on worker 0, completing in order) -/
+theorem schedules_exist (cs n S : Nat) (hn : 1 ≤ n) : ∃ s : Schedule, s.Valid (nBatches cs S) n :=
+  ⟨⟨List.replicate (nBatches cs S) 0, List.range (nBatches cs S)⟩, by simp,
+    fun w hw => by rw [(List.mem_replicate.mp hw).2]; omega, List.Perm.refl _⟩
+
+private theorem valid_indices (cfg : Config) (cs n S : Nat) (hcs : 1 ≤ cs) (s : Schedule)
+    (hs : s.Valid (nBatches cs S) n) :
     ∀ c ∈ s.order,
-      c < (chunks (chunksize S n) (mkArgs cfg.repaired true ⟨.parent, cfg.p0⟩ S).1).length ∧
+      c < (chunks cs (mkArgs cfg.repaired true ⟨.parent, cfg.p0⟩ S).1).length ∧
         c < s.worker.length := by
   intro c hc
   have := List.mem_range.mp (hs.2.2.subset hc)
-  rw [nBatches_eq]
+  rw [nBatches_eq _ _ _ _ hcs]
   exact ⟨this, by rw [hs.1]; exact this⟩
 
 /-- **every shot runs exactly once, in parallel mode** — for either code version, every start
 method, every pool size and every valid schedule: the multiset of executed shots is `0, …, S-1`. -/
-theorem par_runs_each_shot_once (cfg : Config) (n S : Nat) (s : Schedule)
-    (hs : s.Valid (nBatches S n) n) :
-    ((parRunN cfg n S s).map (·.shot)).Perm (List.range S) := by
-  have hcs := chunksize_pos S n
-  unfold parRunN
-  rw [consume_shots _ _ _ _ _ (valid_indices cfg n S s hs)]
+theorem par_runs_each_shot_once (cfg : Config) (cs n S : Nat) (hcs : 1 ≤ cs) (s : Schedule)
+    (hs : s.Valid (nBatches cs S) n) :
+    ((parRunWith cfg cs S s).map (·.shot)).Perm (List.range S) := by
+  unfold parRunWith
+  rw [consume_shots _ _ _ _ _ (valid_indices cfg cs n S hcs s hs)]
   have hperm := hs.2.2
-  rw [← nBatches_eq cfg.repaired true ⟨.parent, cfg.p0⟩ S n] at hperm
+  rw [← nBatches_eq cfg.repaired true ⟨.parent, cfg.p0⟩ S hcs] at hperm
   refine (List.Perm.flatMap_right _ hperm).trans ?_
   rw [flatMap_range_getElem?_comp _ (List.map (fun a : Arg => a.index)), ← List.map_flatMap, List.flatMap_id',
     chunks_flatten hcs, mkArgs_index]
 
 /-- every shot of a parallel run is executed by one of the pool's `n` workers -/
-theorem par_runs_on_pool_workers (cfg : Config) (n S : Nat) (s : Schedule)
-    (hs : s.Valid (nBatches S n) n) :
-    ∀ e ∈ parRunN cfg n S s, e.worker < n :=
+theorem par_runs_on_pool_workers (cfg : Config) (cs n S : Nat) (s : Schedule)
+    (hs : s.Valid (nBatches cs S) n) :
+    ∀ e ∈ parRunWith cfg cs S s, e.worker < n :=
   fun e he => hs.2.1 _ (consume_workers _ _ _ _ _ e he)
 
 /-- **every shot runs exactly once, in sequential mode** — in order, in the calling process -/
@@ -164,10 +172,10 @@ theorem estimate_spec (pos : K → Bool) (d S : Nat) (vec : Nat → List K)
 /-- **parallel mode returns the normalised mean of the `S` per-shot vectors for every schedule**
 (either code version; `vec i` = what shot `i` returned in this run). -/
 theorem par_result_is_normalised_mean (pos : K → Bool) (d : Nat) (vec : Nat → List K) (cfg : Config)
-    (n S : Nat) (s : Schedule) (hs : s.Valid (nBatches S n) n) :
-    estimate (fieldNum K pos) d S ((parRunN cfg n S s).map fun e => vec e.shot)
+    (cs n S : Nat) (hcs : 1 ≤ cs) (s : Schedule) (hs : s.Valid (nBatches cs S) n) :
+    estimate (fieldNum K pos) d S ((parRunWith cfg cs S s).map fun e => vec e.shot)
       = estimate (fieldNum K pos) d S ((List.range S).map vec) :=
-  mean_order_independent pos d S vec _ (par_runs_each_shot_once cfg n S s hs)
+  mean_order_independent pos d S vec _ (par_runs_each_shot_once cfg cs n S hcs s hs)
 
 /-! ## Sequential mode -/
 
@@ -182,6 +190,17 @@ theorem seq_sources (cfg : Config) (S : Nat) :
   obtain ⟨h1, _⟩ := runShots_unseeded cfg.len ⟨.parent, cfg.p0⟩
     (mkArgs cfg.repaired false ⟨.parent, cfg.p0⟩ S).1 (mkArgs_unseeded _ _ h0 _ _)
   rw [h1, mkArgs_index, seqSrcs_range, List.map_map]
+  rfl
+
+/-- **sequential mode returns the normalised mean of the `S` per-shot vectors**, shot `i` computed
+from the block of generator outputs right after shot `i-1`'s (any arithmetic `num`) -/
+theorem seq_result_is_normalised_mean {α D : Type} (num : Num α) (d : Nat) (f : List D → List α)
+    (draw : Stream × Nat → D) (cfg : Config) (S : Nat) :
+    runResult num d S f draw (seqRun cfg S)
+      = estimate num d S ((List.range S).map fun i =>
+          f (block draw ⟨.parent, cfg.p0 + cum cfg.len i, cfg.len i⟩)) := by
+  unfold runResult
+  rw [seq_sources, List.map_map]
   rfl
 
 /-- **sequential draw sources are pairwise disjoint** -/
@@ -207,18 +226,17 @@ def found (start : StartMethod) (p0 : Nat) (len : Nat → Nat) : Config := ⟨fa
 schedule, parent position and draw counts — whenever the schedule uses two different workers, two
 different shots start at the very same position `p0` of the parent's stream (each worker's first
 shot replays the state the worker inherited). -/
-theorem par_found_fork_shares (p0 : Nat) (len : Nat → Nat) (n S : Nat) (s : Schedule)
-    (hs : s.Valid (nBatches S n) n) (w₁ w₂ : Nat) (hw : w₁ ≠ w₂)
+theorem par_found_fork_shares (p0 : Nat) (len : Nat → Nat) (cs n S : Nat) (hcs : 1 ≤ cs) (s : Schedule)
+    (hs : s.Valid (nBatches cs S) n) (w₁ w₂ : Nat) (hw : w₁ ≠ w₂)
     (h₁ : w₁ ∈ s.worker) (h₂ : w₂ ∈ s.worker) :
-    ∃ e₁ ∈ parRunN (found .fork p0 len) n S s, ∃ e₂ ∈ parRunN (found .fork p0 len) n S s,
+    ∃ e₁ ∈ parRunWith (found .fork p0 len) cs S s, ∃ e₂ ∈ parRunWith (found .fork p0 len) cs S s,
       e₁.shot ≠ e₂.shot ∧ e₁.src.stream = .parent ∧ e₂.src.stream = .parent ∧
         e₁.src.start = p0 ∧ e₂.src.start = p0 := by
-  have hcs := chunksize_pos S n
   have h0 : (false && true) = false := rfl
-  have hidx := valid_indices (found .fork p0 len) n S s hs
-  have hne : ∀ task ∈ chunks (chunksize S n) (mkArgs false true ⟨.parent, p0⟩ S).1, task ≠ [] :=
+  have hidx := valid_indices (found .fork p0 len) cs n S hcs s hs
+  have hne : ∀ task ∈ chunks cs (mkArgs false true ⟨.parent, p0⟩ S).1, task ≠ [] :=
     fun t ht => (mem_chunks hcs _ t ht).1
-  have hseed : ∀ task ∈ chunks (chunksize S n) (mkArgs false true ⟨.parent, p0⟩ S).1,
+  have hseed : ∀ task ∈ chunks cs (mkArgs false true ⟨.parent, p0⟩ S).1,
       ∀ a ∈ task, a.seed = none :=
     fun t ht a ha => mkArgs_unseeded _ _ h0 _ _ a (mem_of_mem_chunks hcs ht ha)
   have hused : ∀ w ∈ s.worker, ∃ c ∈ s.order, s.worker[c]? = some w := by
@@ -232,8 +250,8 @@ theorem par_found_fork_shares (p0 : Nat) (len : Nat → Nat) (n S : Nat) (s : Sc
   obtain ⟨e₂, he₂, b1, b2, b3⟩ := key w₂ h₂
   simp only [workerInit, mkArgs_gen_unrepaired _ _ h0] at a2 a3 b2 b3
   refine ⟨e₁, he₁, e₂, he₂, ?_, a2, b2, a3, b3⟩
-  have hnd : ((parRunN (found .fork p0 len) n S s).map (·.shot)).Nodup :=
-    (par_runs_each_shot_once (found .fork p0 len) n S s hs).nodup_iff.mpr List.nodup_range
+  have hnd : ((parRunWith (found .fork p0 len) cs S s).map (·.shot)).Nodup :=
+    (par_runs_each_shot_once (found .fork p0 len) cs n S hcs s hs).nodup_iff.mpr List.nodup_range
   intro hshot
   have : e₁ = e₂ := List.inj_on_of_nodup_map hnd he₁ he₂ hshot
   exact hw (by rw [← a1, ← b1, this])
@@ -244,12 +262,12 @@ the draw sources are pairwise disjoint — for every number of shots `S ≥ 2`, 
 share generator outputs (under `fork`, the default start method on Linux). -/
 theorem par_found_not_disjoint (p0 : Nat) (len : Nat → Nat) (hlen : ∀ i, 0 < len i) (n S : Nat)
     (hn : 2 ≤ n) (hS : 2 ≤ S) :
-    ¬ ∀ s : Schedule, s.Valid (nBatches S n) n →
+    ¬ ∀ s : Schedule, s.Valid (nBatches (chunksize S n) S) n →
       (parRunN (found .fork p0 len) n S s).Pairwise (fun a b => a.src.Disjoint b.src) := by
   intro hall
   -- at least two batches: batch 0 on worker 0, every other batch on worker 1, completion in order
   have hcs := chunksize_pos S n
-  have hm : 2 ≤ nBatches S n := by
+  have hm : 2 ≤ nBatches (chunksize S n) S := by
     unfold nBatches
     by_contra hlt
     have h1 : (chunks (chunksize S n) (List.range S)).length ≤ 1 := by omega
@@ -272,14 +290,14 @@ theorem par_found_not_disjoint (p0 : Nat) (len : Nat → Nat) (hlen : ∀ i, 0 <
       have := (hmem c (by simp)).2
       simp at hl
       omega
-  let s : Schedule := ⟨0 :: List.replicate (nBatches S n - 1) 1, List.range (nBatches S n)⟩
-  have hv : s.Valid (nBatches S n) n := by
+  let s : Schedule := ⟨0 :: List.replicate (nBatches (chunksize S n) S - 1) 1, List.range (nBatches (chunksize S n) S)⟩
+  have hv : s.Valid (nBatches (chunksize S n) S) n := by
     refine ⟨by simp [s]; omega, ?_, List.Perm.refl _⟩
     intro w hw
     simp only [s, List.mem_cons, List.mem_replicate] at hw
     rcases hw with rfl | ⟨_, rfl⟩ <;> omega
   obtain ⟨e₁, he₁, e₂, he₂, hshot, a2, b2, a3, b3⟩ :=
-    par_found_fork_shares p0 len n S s hv 0 1 (by omega) (by simp [s])
+    par_found_fork_shares p0 len (chunksize S n) n S hcs s hv 0 1 (by omega) (by simp [s])
       (by simp only [s, List.mem_cons, List.mem_replicate]; right; exact ⟨by omega, trivial⟩)
   have hne : e₁ ≠ e₂ := fun h => hshot (by rw [h])
   have : Std.Symm (fun a b : Entry => a.src.Disjoint b.src) := ⟨fun _ _ h => Src.Disjoint.symm h⟩
@@ -287,5 +305,320 @@ theorem par_found_not_disjoint (p0 : Nat) (len : Nat → Nat) (hlen : ∀ i, 0 <
   exact not_disjoint_of_same_start (a2.trans b2.symm) (a3.trans b3.symm)
     (by rw [consume_len _ _ _ _ _ e₁ he₁]; exact hlen _)
     (by rw [consume_len _ _ _ _ _ e₂ he₂]; exact hlen _) hdis
+
+/-- **pinned witness of D12** (`S = 2`, a machine with one core: two workers, chunk size 1, one
+batch each): both shots draw from the parent's stream at the SAME position `p0`; with equal draw
+counts the two draw sources are identical, so the two shots return the same vector whatever the
+generator outputs and whatever the circuit is, and with a positive draw count the sources are not
+disjoint. -/
+theorem par_shares_pinned (p0 : Nat) (len : Nat → Nat) :
+    let s : Schedule := ⟨[0, 1], [0, 1]⟩
+    nProcesses 1 = 2 ∧ chunksize 2 2 = 1 ∧ s.Valid (nBatches (chunksize 2 2) 2) 2 ∧
+    parRun (found .fork p0 len) 1 2 s
+      = [⟨0, 0, ⟨.parent, p0, len 0⟩⟩, ⟨1, 1, ⟨.parent, p0, len 1⟩⟩] ∧
+    (len 0 = len 1 → ∀ {D α : Type} (f : List D → List α) (draw : Stream × Nat → D),
+      f (block draw ⟨.parent, p0, len 0⟩) = f (block draw ⟨.parent, p0, len 1⟩)) ∧
+    (0 < len 0 → 0 < len 1 →
+      ¬ (parRun (found .fork p0 len) 1 2 s).Pairwise (fun a b => a.src.Disjoint b.src)) := by
+  intro s
+  have hn : nProcesses 1 = 2 := by decide
+  have hc : chunksize 2 2 = 1 := by decide
+  have hch : ∀ l : List Arg, l.length = 2 → (chunks 1 l).length = 2 := by
+    intro l hl
+    match l, hl with
+    | [a, b], _ => simp [chunks_of_ne_nil, chunks_of_nil]
+  have hb : nBatches (chunksize 2 2) 2 = 2 := by
+    unfold nBatches
+    rw [hc]
+    simp [List.range_succ, chunks_of_ne_nil, chunks_of_nil]
+  have hv : s.Valid (nBatches (chunksize 2 2) 2) 2 := by
+    rw [← validB_iff, hb]
+    decide
+  have hrun : parRun (found .fork p0 len) 1 2 s
+      = [⟨0, 0, ⟨.parent, p0, len 0⟩⟩, ⟨1, 1, ⟨.parent, p0, len 1⟩⟩] := by
+    simp [parRun, parRunN, parRunWith, found, hn, hc, mkArgs, List.range_succ, chunks_of_ne_nil, chunks_of_nil,
+      consume, runShots, singleShot, workerInit, s]
+  refine ⟨hn, hc, hv, hrun, ?_, ?_⟩
+  · intro h D α f draw
+    rw [h]
+  · intro h0 h1 hpw
+    rw [hrun] at hpw
+    simp only [List.pairwise_cons, List.mem_cons, List.mem_nil_iff, or_false, forall_eq] at hpw
+    exact not_disjoint_of_same_start (a := ⟨.parent, p0, len 0⟩) (b := ⟨.parent, p0, len 1⟩) rfl rfl h0 h1 hpw.1
+
+/-- **the observed instance of D12**: 24 shots on a machine with 15 cores (12 workers, chunk size 2),
+every worker taking one batch: the 24 shots draw from only TWO distinct sources — each of the 12
+workers replays `[p0, p0+L)` and then `[p0+L, p0+2L)` of the parent's stream. -/
+theorem par_shares_D12 (p0 L : Nat) :
+    let s : Schedule := ⟨List.range 12, List.range 12⟩
+    nProcesses 15 = 12 ∧ chunksize 24 12 = 2 ∧ s.Valid (nBatches (chunksize 24 12) 24) 12 ∧
+    (parRun (found .fork p0 (fun _ => L)) 15 24 s).map (·.src)
+      = (List.replicate 12 [(⟨.parent, p0, L⟩ : Src), ⟨.parent, p0 + L, L⟩]).flatten := by
+  intro s
+  have hn : nProcesses 15 = 12 := by decide
+  have hc : chunksize 24 12 = 2 := by decide
+  have hb : nBatches (chunksize 24 12) 24 = 12 := by
+    unfold nBatches
+    rw [hc]
+    simp [List.range_succ, chunks_of_ne_nil, chunks_of_nil]
+  have hv : s.Valid (nBatches (chunksize 24 12) 24) 12 := by
+    rw [← validB_iff, hb]
+    decide
+  refine ⟨hn, hc, hv, ?_⟩
+  simp [parRun, parRunN, parRunWith, found, hn, hc, mkArgs, List.range_succ, chunks_of_ne_nil, chunks_of_nil,
+    consume, runShots, singleShot, workerInit, s, List.replicate]
+
+/-- code as found under `spawn` / `forkserver`: every worker is a new interpreter with its own
+OS-seeded generator, so the draw sources ARE pairwise disjoint for every schedule — but no shot
+draws from the parent's stream, so the result is not a function of the seed the user set (a
+parallel run cannot be reproduced).  The property quantifies over start methods; `fork` is the
+default on Linux. -/
+theorem par_found_spawn_disjoint (p0 : Nat) (len : Nat → Nat) (cs S : Nat) (hcs : 1 ≤ cs) (s : Schedule) :
+    (parRunWith (found .spawn p0 len) cs S s).Pairwise (fun a b => a.src.Disjoint b.src) ∧
+      ∀ e ∈ parRunWith (found .spawn p0 len) cs S s, e.src.stream = .fresh e.worker := by
+  have h0 : (false && true) = false := rfl
+  have hseed : ∀ task ∈ chunks cs (mkArgs false true ⟨.parent, p0⟩ S).1,
+      ∀ a ∈ task, a.seed = none :=
+    fun t ht a ha => mkArgs_unseeded _ _ h0 _ _ a (mem_of_mem_chunks hcs ht ha)
+  obtain ⟨h1, h2⟩ := consume_unseeded_disjoint len _ s.worker hseed s.order
+    (workerInit .spawn (mkArgs false true ⟨.parent, p0⟩ S).2) (by
+      intro v w hvw h
+      simp only [workerInit, Stream.fresh.injEq] at h
+      exact hvw h)
+  exact ⟨h1, fun e he => (h2 e he).1⟩
+
+/-! ## Parallel mode, repaired code: the property holds -/
+
+/-- the repaired code -/
+def repaired (start : StartMethod) (p0 : Nat) (len : Nat → Nat) : Config := ⟨true, start, p0, len⟩
+
+/-- **distinct seeds**: in parallel mode the repaired code gives every shot a seed, and the seeds of
+different shots are different children of one seed sequence (distinct by construction, not merely
+with high probability — what a birthday bound would give for random 32-bit seeds) -/
+theorem par_seeds_distinct (g : Gen) (S : Nat) :
+    ((mkArgs true true g S).1.map (·.seed)).Nodup ∧ ∀ a ∈ (mkArgs true true g S).1, a.seed ≠ none := by
+  constructor
+  · simp only [mkArgs, Bool.and_self, if_true, List.map_map]
+    refine List.Nodup.map ?_ List.nodup_range
+    intro i j h
+    simpa using h
+  · intro a ha
+    rw [mkArgs_seeded g S a ha]
+    simp
+
+/-- **draw sources of the repaired code**: whatever the start method, the pool size and the
+schedule, shot `i` draws the first `len i` outputs of ITS OWN stream `child p0 i` (the `i`-th child
+of the seed sequence whose entropy the parent drew at position `p0`). -/
+theorem par_sources (start : StartMethod) (p0 : Nat) (len : Nat → Nat) (cs n S : Nat) (hcs : 1 ≤ cs) (s : Schedule)
+    (hs : s.Valid (nBatches cs S) n) :
+    ∀ e ∈ parRunWith (repaired start p0 len) cs S s, e.src = ⟨.child p0 e.shot, 0, len e.shot⟩ := by
+  have hseed : ∀ task ∈ chunks cs (mkArgs true true ⟨.parent, p0⟩ S).1,
+      ∀ a ∈ task, a.seed = some (Stream.child p0 a.index) :=
+    fun t ht a ha => mkArgs_seeded ⟨.parent, p0⟩ S a (mem_of_mem_chunks hcs ht ha)
+  intro e he
+  have he' : e ∈ consume len (chunks cs (mkArgs true true ⟨.parent, p0⟩ S).1) s.worker
+      (workerInit start (mkArgs true true ⟨.parent, p0⟩ S).2) s.order := he
+  rw [consume_seeded len (Stream.child p0) _ s.worker hseed s.order _
+    (valid_indices (repaired start p0 len) cs n S hcs s hs)] at he'
+  obtain ⟨c, _, he⟩ := List.mem_flatMap.mp he'
+  obtain ⟨a, _, rfl⟩ := List.mem_map.mp he
+  rfl
+
+/-- **THE PROPERTY, parallel mode**: for the repaired code, every start method, every number of
+shots, every pool size, every valid schedule (assignment of batches to workers and completion
+order), every parent position and all draw counts, the draw sources of the shots are pairwise
+disjoint — no two shots share a noise realisation. -/
+theorem par_disjoint (start : StartMethod) (p0 : Nat) (len : Nat → Nat) (cs n S : Nat) (hcs : 1 ≤ cs) (s : Schedule)
+    (hs : s.Valid (nBatches cs S) n) :
+    (parRunWith (repaired start p0 len) cs S s).Pairwise (fun a b => a.src.Disjoint b.src) := by
+  have hnd : ((parRunWith (repaired start p0 len) cs S s).map (·.shot)).Nodup :=
+    (par_runs_each_shot_once (repaired start p0 len) cs n S hcs s hs).nodup_iff.mpr List.nodup_range
+  have hsrc := par_sources start p0 len cs n S hcs s hs
+  rw [List.Nodup, List.pairwise_map] at hnd
+  refine hnd.imp_of_mem ?_
+  intro a b ha hb hab
+  apply disjoint_of_stream_ne
+  rw [hsrc a ha, hsrc b hb]
+  intro h
+  simp only [Stream.child.injEq, true_and] at h
+  exact hab h
+
+/-- the same for the pool size the code derives from the number of cores -/
+theorem par_disjoint_cpu (start : StartMethod) (p0 : Nat) (len : Nat → Nat) (cpu S : Nat) (s : Schedule)
+    (hs : s.Valid (nBatches (chunksize S (nProcesses cpu)) S) (nProcesses cpu)) :
+    (parRun (repaired start p0 len) cpu S s).Pairwise (fun a b => a.src.Disjoint b.src) :=
+  par_disjoint start p0 len _ (nProcesses cpu) S (chunksize_pos _ _) s hs
+
+/-- **reproducibility of the repaired code**: the draw source of shot `i` depends on nothing but the
+parent's position (i.e. the seed the user set) and `i` — not on the start method, the number of
+cores or the schedule.  With the order independence of the mean, a parallel run under a fixed
+numpy seed returns the same result however it is scheduled. -/
+theorem par_schedule_independent (p0 : Nat) (len : Nat → Nat) (S : Nat)
+    (start start' : StartMethod) (cs cs' n n' : Nat) (hcs : 1 ≤ cs) (hcs' : 1 ≤ cs') (s s' : Schedule)
+    (hs : s.Valid (nBatches cs S) n) (hs' : s'.Valid (nBatches cs' S) n') :
+    ∀ e ∈ parRunWith (repaired start p0 len) cs S s, ∀ e' ∈ parRunWith (repaired start' p0 len) cs' S s',
+      e.shot = e'.shot → e.src = e'.src := by
+  intro e he e' he' h
+  rw [par_sources start p0 len cs n S hcs s hs e he, par_sources start' p0 len cs' n' S hcs' s' hs' e' he', h]
+
+/-- the parent's own generator: the repaired code spends `entropyDraws` outputs of the parent's
+stream on the seeds in parallel mode — and none in sequential mode (nor does the code as found) -/
+theorem parent_draws (g : Gen) (S : Nat) :
+    (mkArgs true true g S).2 = ⟨g.stream, g.pos + entropyDraws⟩ ∧ (mkArgs true false g S).2 = g ∧
+      (mkArgs false true g S).2 = g ∧ (mkArgs false false g S).2 = g := by
+  simp [mkArgs]
+
+/-- the parent's generator when the simulation returns: after a sequential run it stands behind the
+last shot's interval; after a parallel run it stands where it stood — except that the repaired code
+has spent `entropyDraws` outputs on the seeds (so a second parallel run gets new seeds, whereas the
+code as found replays the very same realisations in every parallel run of a process) -/
+theorem parent_generator_after (cfg : Config) (S : Nat) :
+    parentAfter cfg false S = ⟨.parent, cfg.p0 + cum cfg.len S⟩ ∧
+      parentAfter cfg true S = ⟨.parent, cfg.p0 + (if cfg.repaired then entropyDraws else 0)⟩ := by
+  have h0 : (cfg.repaired && false) = false := by simp
+  refine ⟨?_, ?_⟩
+  · unfold parentAfter
+    simp only [Bool.false_eq_true, if_false, mkArgs_gen_unrepaired _ _ h0]
+    obtain ⟨_, h2⟩ := runShots_unseeded cfg.len ⟨.parent, cfg.p0⟩
+      (mkArgs cfg.repaired false ⟨.parent, cfg.p0⟩ S).1 (mkArgs_unseeded _ _ h0 _ _)
+    rw [h2, mkArgs_index, sum_map_range_eq_cum]
+  · unfold parentAfter
+    cases hr : cfg.repaired <;> simp [mkArgs]
+
+/-- **the parallel estimator is the sequential estimator on relabelled generator outputs.**
+For the repaired code, every start method, pool size and valid schedule there is a map `σ` of
+generator positions which
+* is a bijection from the positions the parallel run draws from onto the positions the sequential
+  run draws from (`used`), and
+* turns the parallel run into the sequential one: every shot sees, in parallel mode under the
+  outputs `draw ∘ σ`, exactly the block of outputs it sees in sequential mode under `draw`; hence
+  (any field, any circuit function `f`) the two runs return the same result, error case included.
+Under the trusted idealisation (outputs at distinct positions are i.i.d.) `draw ∘ σ` restricted to the
+used positions has the law of `draw`, so the two estimators have the same distribution. -/
+theorem par_equidistributed (start : StartMethod) (p0 : Nat) (len : Nat → Nat) (cs n S : Nat) (hcs : 1 ≤ cs) (s : Schedule)
+    (hs : s.Valid (nBatches cs S) n) :
+    ∃ σ : Stream × Nat → Stream × Nat,
+      Set.BijOn σ (used (parRunWith (repaired start p0 len) cs S s)) (used (seqRun (repaired start p0 len) S)) ∧
+      (∀ {D : Type} (draw : Stream × Nat → D),
+        ∀ e ∈ parRunWith (repaired start p0 len) cs S s, ∀ e' ∈ seqRun (repaired start p0 len) S,
+          e.shot = e'.shot → block (draw ∘ σ) e.src = block draw e'.src) ∧
+      (∀ {D : Type} (pos : K → Bool) (d : Nat) (f : List D → List K) (draw : Stream × Nat → D),
+        runResult (fieldNum K pos) d S f (draw ∘ σ) (parRunWith (repaired start p0 len) cs S s)
+          = runResult (fieldNum K pos) d S f draw (seqRun (repaired start p0 len) S)) := by
+  have hsrc := par_sources start p0 len cs n S hcs s hs
+  have hperm := par_runs_each_shot_once (repaired start p0 len) cs n S hcs s hs
+  have hseq := seq_sources (repaired start p0 len) S
+  have hlenS : (repaired start p0 len).len = len := rfl
+  have hp0 : (repaired start p0 len).p0 = p0 := rfl
+  rw [hlenS, hp0] at hseq
+  -- the block shot `i` sees
+  have hblock : ∀ {D : Type} (draw : Stream × Nat → D) (i : Nat),
+      block (draw ∘ relabel len p0) ⟨.child p0 i, 0, len i⟩ = block draw ⟨.parent, p0 + cum len i, len i⟩ := by
+    intro D draw i
+    simp [block, relabel]
+  refine ⟨relabel len p0, ⟨?_, ?_, ?_⟩, ?_, ?_⟩
+  · -- maps to
+    rintro ⟨st, k⟩ ⟨e, he, h1, h2, h3⟩
+    rw [hsrc e he] at h1 h2 h3
+    simp only at h1 h2 h3
+    subst h1
+    have hi : e.shot < S := List.mem_range.mp (hperm.subset (List.mem_map_of_mem he))
+    refine ⟨⟨e.shot, 0, ⟨.parent, p0 + cum len e.shot, len e.shot⟩⟩, ?_, ?_⟩
+    · rw [hseq]; exact List.mem_map.mpr ⟨e.shot, List.mem_range.mpr hi, rfl⟩
+    · simp only [relabel, Src.covers]
+      exact ⟨trivial, by omega, by omega⟩
+  · -- injective
+    rintro ⟨st, k⟩ ⟨e, he, h1, h2, h3⟩ ⟨st', k'⟩ ⟨e', he', h1', h2', h3'⟩ heq
+    rw [hsrc e he] at h1 h2 h3
+    rw [hsrc e' he'] at h1' h2' h3'
+    simp only at h1 h2 h3 h1' h2' h3'
+    subst h1 h1'
+    simp only [relabel, Prod.mk.injEq, true_and] at heq
+    obtain ⟨hi, hk⟩ := cum_inj len (i := e.shot) (j := e'.shot) (k := k) (k' := k') (by omega) (by omega) (by omega)
+    rw [hi, hk]
+  · -- onto
+    rintro ⟨st, q⟩ ⟨e', he', h1, h2, h3⟩
+    rw [hseq] at he'
+    obtain ⟨i, hi, rfl⟩ := List.mem_map.mp he'
+    simp only at h1 h2 h3
+    subst h1
+    have hi' : i ∈ (parRunWith (repaired start p0 len) cs S s).map (·.shot) := hperm.symm.subset hi
+    obtain ⟨e, he, rfl⟩ := List.mem_map.mp hi'
+    refine ⟨(.child p0 e.shot, q - (p0 + cum len e.shot)), ⟨e, he, ?_⟩, ?_⟩
+    · rw [hsrc e he]
+      exact ⟨rfl, by simp only; omega, by simp only; omega⟩
+    · simp only [relabel, Prod.mk.injEq, true_and]
+      omega
+  · -- blocks
+    intro D draw e he e' he' hshot
+    rw [hseq] at he'
+    obtain ⟨i, _, rfl⟩ := List.mem_map.mp he'
+    rw [hsrc e he, hshot]
+    exact hblock draw i
+  · -- results
+    intro D pos d f draw
+    unfold runResult
+    have h1 : (parRunWith (repaired start p0 len) cs S s).map (fun e => f (block (draw ∘ relabel len p0) e.src))
+        = (parRunWith (repaired start p0 len) cs S s).map
+            (fun e => (fun i => f (block draw ⟨.parent, p0 + cum len i, len i⟩)) e.shot) := by
+      apply List.map_congr_left
+      intro e he
+      rw [hsrc e he, hblock]
+    have h2 : (seqRun (repaired start p0 len) S).map (fun e => f (block draw e.src))
+        = (List.range S).map (fun i => f (block draw ⟨.parent, p0 + cum len i, len i⟩)) := by
+      rw [hseq, List.map_map]
+      rfl
+    rw [h1, h2]
+    exact mean_order_independent pos d S (fun i => f (block draw ⟨.parent, p0 + cum len i, len i⟩)) _ hperm
+
+/-- `par_equidistributed` for the pool the code builds on a machine with `cpu` cores -/
+theorem par_equidistributed_cpu (start : StartMethod) (p0 : Nat) (len : Nat → Nat) (cpu S : Nat)
+    (s : Schedule) (hs : s.Valid (nBatches (chunksize S (nProcesses cpu)) S) (nProcesses cpu)) :
+    ∃ σ : Stream × Nat → Stream × Nat,
+      Set.BijOn σ (used (parRun (repaired start p0 len) cpu S s)) (used (seqRun (repaired start p0 len) S)) ∧
+      (∀ {D : Type} (pos : K → Bool) (d : Nat) (f : List D → List K) (draw : Stream × Nat → D),
+        runResult (fieldNum K pos) d S f (draw ∘ σ) (parRun (repaired start p0 len) cpu S s)
+          = runResult (fieldNum K pos) d S f draw (seqRun (repaired start p0 len) S)) := by
+  obtain ⟨σ, h1, _, h3⟩ := par_equidistributed (K := K) start p0 len _ (nProcesses cpu) S
+    (chunksize_pos _ _) s hs
+  exact ⟨σ, h1, h3⟩
+
+/-! ## Non-vacuity -/
+
+/-- seven shots on a 4-core machine: 3 workers, chunk size 3, batches `[0,1,2] [3,4,5] [6]`; worker 0
+takes the first and the last batch, worker 1 the middle one, which completes first.  The schedule
+is valid; the repaired code gives every shot its own stream, the code as found lets shots 0 and 3
+(and 1 and 4, 2 and 5) share theirs under `fork`. -/
+example :
+    let s : Schedule := ⟨[0, 1, 0], [1, 0, 2]⟩
+    nProcesses 4 = 3 ∧ chunksize 7 3 = 3 ∧ s.Valid (nBatches (chunksize 7 (nProcesses 4)) 7) (nProcesses 4) ∧
+    (parRun (repaired .fork 5 (fun _ => 2)) 4 7 s).map (fun e => (e.shot, e.worker, e.src))
+      = [(3, 1, ⟨.child 5 3, 0, 2⟩), (4, 1, ⟨.child 5 4, 0, 2⟩), (5, 1, ⟨.child 5 5, 0, 2⟩),
+         (0, 0, ⟨.child 5 0, 0, 2⟩), (1, 0, ⟨.child 5 1, 0, 2⟩), (2, 0, ⟨.child 5 2, 0, 2⟩),
+         (6, 0, ⟨.child 5 6, 0, 2⟩)] ∧
+    (parRun (found .fork 5 (fun _ => 2)) 4 7 s).map (fun e => (e.shot, e.src))
+      = [(3, ⟨.parent, 5, 2⟩), (4, ⟨.parent, 7, 2⟩), (5, ⟨.parent, 9, 2⟩),
+         (0, ⟨.parent, 5, 2⟩), (1, ⟨.parent, 7, 2⟩), (2, ⟨.parent, 9, 2⟩), (6, ⟨.parent, 11, 2⟩)] := by
+  intro s
+  have hn : nProcesses 4 = 3 := by decide
+  have hc : chunksize 7 3 = 3 := by decide
+  have hb : nBatches (chunksize 7 3) 7 = 3 := by
+    unfold nBatches
+    rw [hc]
+    simp [List.range_succ, chunks_of_ne_nil, chunks_of_nil]
+  refine ⟨hn, hc, ?_, ?_, ?_⟩
+  · rw [← validB_iff, hn, hb]
+    decide
+  · simp [parRun, parRunN, parRunWith, repaired, hn, hc, mkArgs, List.range_succ, chunks_of_ne_nil, chunks_of_nil,
+      consume, runShots, singleShot, s]
+  · simp [parRun, parRunN, parRunWith, found, hn, hc, mkArgs, List.range_succ, chunks_of_ne_nil, chunks_of_nil,
+      consume, runShots, singleShot, workerInit, s]
+
+/-- `estimate_spec` on a concrete run over ℚ: two shots `[1/2, 1/2]`, `[1/4, 1/4]` (an unnormalised
+mean `[3/8, 3/8]`) give `[1/2, 1/2]`; an all-zero run raises `AssertionError`. -/
+example :
+    estimate (fieldNum ℚ (fun x => decide (0 < x))) 2 2 [[1/2, 1/2], [1/4, 1/4]] = .ok [1/2, 1/2] ∧
+    estimate (fieldNum ℚ (fun x => decide (0 < x))) 2 2 [[0, 0], [0, 0]] = .error "AssertionError" := by
+  constructor <;> (simp [estimate, normalise, accumulate, addVec, fieldNum, List.replicate]; try norm_num)
 
 end QG.C09
